@@ -25,5 +25,5 @@ for d in sorted(glob.glob("benign/*")):
         for pid in sorted(anch):
             if pid != own and anch[pid] & files: print(name, pid)
 PY
-cat $OUT/pairs.txt | xargs -P 3 -L 1 sh -c '[ -n "$SKIP_EXISTING" ] && [ -f '$OUT'/$0--$1.txt ] && exit 0; MUTRUN=/tmp/mutrun/tree-bn-$0-$1 tools/trymutant.sh benign/$0/patch.diff $1 > '$OUT'/$0--$1.txt 2>&1; echo "$0 $1 rc=$?"'
+cat $OUT/pairs.txt | xargs -P ${BENIGN_JOBS:-3} -L 1 sh -c '[ -n "$SKIP_EXISTING" ] && [ -f '$OUT'/$0--$1.txt ] && exit 0; MUTRUN=/tmp/mutrun/tree-bn-$0-$1 tools/trymutant.sh benign/$0/patch.diff $1 > '$OUT'/$0--$1.txt 2>&1; echo "$0 $1 rc=$?"'
 python3 tools/benignresults.py $OUT
